@@ -199,6 +199,23 @@ def require_tlc_ok(r, what):
 # ----------------------------------------------------------------------------
 # real code execution
 # ----------------------------------------------------------------------------
+def _read_shipped_parsetab():
+    """the parse-table file as SHIPPED with the tree under test: the committed one when the tree is a git checkout (the working-tree file
+    may already have been regenerated by an earlier use of the library), else the file as it is before this process first uses the library"""
+    rel = "simple_ddl_parser/parsetab.py"
+    if os.path.isdir(os.path.join(REPO, ".git")) or os.path.isfile(os.path.join(REPO, ".git")):
+        p = subprocess.run(["git", "-C", REPO, "show", "HEAD:" + rel], stdout=subprocess.PIPE, stderr=subprocess.PIPE, text=True)
+        if p.returncode == 0 and p.stdout:
+            return p.stdout
+    try:
+        return open(os.path.join(REPO, rel)).read()
+    except OSError:
+        return None
+
+
+SHIPPED_PARSETAB = _read_shipped_parsetab()
+
+
 def warm_up_repo():
     """Import the library once in a throw-away process so that a stale parse-table
     cache is regenerated before the harness (and its forked workers) import it."""
